@@ -235,6 +235,9 @@ void coop_end(coop_stats_t *out) {
     self_id = -1;
 }
 
+/* a blocking system call of a managed thread is a suspension point too */
+void coop_preempt(void) { if (G.on && self_id >= 0) sched_point(); }
+
 void coop_call_begin(const char *api) { if (!G.on) return; G.call_api = api; G.call_steps = 0; }
 void coop_call_end(void) { if (!G.on) return; G.call_api = NULL; }
 
